@@ -3,12 +3,15 @@ package main
 import (
 	"bytes"
 	"context"
+	"crypto/sha256"
+	"encoding/hex"
 	"fmt"
 	"os"
 	"os/exec"
 	"path/filepath"
 	"strings"
 	"sync"
+	"sync/atomic"
 	"time"
 )
 
@@ -95,9 +98,67 @@ func runSolver(ctx context.Context, sp solverSpec, file string, secs int) (statu
 	return
 }
 
+// Proof cache: the answer "unsat" for a byte-identical SMT-LIB query is reused
+// (key: SHA-256 of the query text). Obligations are still generated from the
+// current source on every run; only the solver call is saved. GOVC_NOCACHE=1 disables it.
+var cacheDir = func() string {
+	if os.Getenv("GOVC_NOCACHE") != "" {
+		return ""
+	}
+	d := filepath.Join(verifRoot(), ".cache", "smt")
+	if err := os.MkdirAll(d, 0o755); err != nil {
+		return ""
+	}
+	return d
+}()
+
+var cacheHits, cacheMisses int64
+
+func cacheKey(text string) string {
+	h := sha256.Sum256([]byte(text))
+	return hex.EncodeToString(h[:])
+}
+
 // solve races the solvers on one obligation.
 func solve(o *Oblig, dir string, secs int, confirm bool) SolveResult {
 	text := o.smt2()
+	var ckey string
+	if cacheDir != "" && !confirm {
+		ckey = filepath.Join(cacheDir, cacheKey(text))
+		if b, err := os.ReadFile(ckey); err == nil {
+			parts := strings.SplitN(strings.TrimSpace(string(b)), " ", 3)
+			if len(parts) == 3 && parts[0] == "sat" && o.ExpectSat {
+				atomic.AddInt64(&cacheHits, 1)
+				return SolveResult{Status: "sat", Solver: parts[1], Bytes: len(text), All: map[string]string{parts[1]: "sat (cached)"}}
+			}
+			if len(parts) == 3 && parts[0] == "undecided" && o.Kind == "cand" {
+				// an inferred candidate that was not proved before is simply dropped again (always sound)
+				atomic.AddInt64(&cacheHits, 1)
+				return SolveResult{Status: "unknown", Bytes: len(text), All: map[string]string{"cache": "candidate undecided before"}}
+			}
+			if len(parts) == 3 && parts[0] == "unsat" {
+				atomic.AddInt64(&cacheHits, 1)
+				var t float64
+				fmt.Sscanf(parts[2], "%f", &t)
+				return SolveResult{Status: "unsat", Solver: parts[1], Seconds: t, Bytes: len(text), All: map[string]string{parts[1]: "unsat (cached proof of the identical query)"}, Confirm: "cached"}
+			}
+		}
+		atomic.AddInt64(&cacheMisses, 1)
+	}
+	res := solveUncached(o, text, dir, secs, confirm)
+	if ckey != "" && res.Status == "unsat" {
+		_ = os.WriteFile(ckey, []byte(fmt.Sprintf("unsat %s %.3f\n", res.Solver, res.Seconds)), 0o644)
+	}
+	if ckey != "" && res.Status == "sat" && o.ExpectSat {
+		_ = os.WriteFile(ckey, []byte(fmt.Sprintf("sat %s %.3f\n", res.Solver, res.Seconds)), 0o644)
+	}
+	if ckey != "" && o.Kind == "cand" && res.Status != "unsat" && res.Status != "sat" && secs >= 10 {
+		_ = os.WriteFile(ckey, []byte("undecided - 0\n"), 0o644)
+	}
+	return res
+}
+
+func solveUncached(o *Oblig, text, dir string, secs int, confirm bool) SolveResult {
 	file := filepath.Join(dir, sanitize(o.Name)+".smt2")
 	if len(file) > 200 {
 		file = file[:200] + ".smt2"
